@@ -537,8 +537,15 @@ func (rr *rulesRunner) fixedText(text []byte, n ast.Node, following string) []by
 var longTextPlaceholder = []byte("<...>")
 
 func truncateText(s []byte, maxLen int) []byte {
-	if len(s) <= maxLen-len(longTextPlaceholder) {
+	if len(s) <= maxLen {
 		return s
+	}
+	if maxLen < len(longTextPlaceholder) {
+		// No room for the placeholder: keep a plain prefix.
+		if maxLen < 0 {
+			maxLen = 0
+		}
+		return s[:maxLen]
 	}
 	maxLen -= len(longTextPlaceholder)
 	leftLen := maxLen / 2
